@@ -145,6 +145,10 @@ fn api_ids(s: SuiteId) -> Vec<(String, Option<Vec<u8>>)> {
         ("binary-fffd".into(), Some(vec![0xff, 0xfd, 0x00, 0x41])),
         ("binary-e282".into(), Some(vec![0xe2, 0x82])),
         ("binary-e283".into(), Some(vec![0xe2, 0x83])),
+        // api_id || "SIG_GENERATOR_SEED_" crosses the 255-octet DST limit at 237 octets (RFC 9380 oversize rule)
+        ("long-236".into(), Some(vec![b'q'; 236])),
+        ("long-237".into(), Some(vec![b'q'; 237])),
+        ("long-1000".into(), Some(vec![b'q'; 1000])),
     ]
 }
 
@@ -159,6 +163,11 @@ fn generators<X: Sx, Y: Sx>(ctx: &Ctx, n: usize, which: usize) {
     };
     if g.values.len() != n {
         ctx.violation("C11:generator-count", json!({"origin":origin,"asked":n,"got":g.values.len()}));
+    }
+    // the set is the one an independent implementation of the drafts derives for (expander, api id)
+    let want = crate::refimpl::create_generators(X::ID, n.min(40), api.as_deref().unwrap_or(&[]));
+    if g.values.len() < want.len() || g.values[..want.len()] != want[..] {
+        ctx.violation("C11:generators-differ-from-reference", json!({"origin":origin}));
     }
     let p1s = [SuiteId::Sha.p1(), SuiteId::Shake.p1()];
     let mut map = POINTS.get_or_init(|| Mutex::new(HashMap::new())).lock().unwrap();
@@ -397,7 +406,7 @@ pub fn scenarios(ctx: &Ctx) -> Vec<Scenario> {
     v.push(scenario("prepare_parameters/sha", |c| prepare_params::<Sha>(c, 7000)));
     v.push(scenario("prepare_parameters/shake", |c| prepare_params::<Shake>(c, 7001)));
     let n = ctx.t(256usize, 1024usize);
-    for which in 0..13usize {
+    for which in 0..16usize {
         v.push(scenario(format!("generators/sha/{which}"), move |c| generators::<Sha, Shake>(c, n, which)));
         v.push(scenario(format!("generators/shake/{which}"), move |c| generators::<Shake, Sha>(c, n, which)));
     }
